@@ -94,9 +94,15 @@ Proof.
   intro H. rewrite forallb_forall in *. intros x I. specialize (H x I). apply value_char_facts in H. lia.
 Qed.
 
+Lemma lower_key_ascii v : forallb (fun c => c <? 128) v = true -> lower_key v = Some (lower v).
+Proof.
+  induction v as [|c v IH]; intro H; [reflexivity|].
+  cbn [forallb] in H. apply andb_true_iff in H as [H1 H2]. cbn [lower_key]. rewrite H1, IH by auto. reflexivity.
+Qed.
+
 Theorem parse_color_spec c : wf_colspec c = true -> parse_color (print_colspec c) = Ok (colspec_rgba c).
 Proof.
-  intro W. pose proof (colspec_chars c W) as V. unfold parse_color. rewrite (ascii_of_value _ V). cbn [negb].
+  intro W. pose proof (colspec_chars c W) as V. unfold parse_color. rewrite (lower_key_ascii _ (ascii_of_value _ V)).
   destruct c as [r g b u|r g b a u|i u]; cbn [wf_colspec print_colspec colspec_rgba] in *.
   - unfold byte_ok in W.
     destruct (hex2_spec u r) as (a1 & a2 & E1 & _ & _ & X1 & X2 & I1); [lia|].
